@@ -183,7 +183,8 @@ Lemma new_spf : spf_of es x = Ok (nd_spf n) /\ (a_self_parent x <> None -> 1 <= 
 Proof.
   destruct new_event_facts as (W0 & PK & [S1 S2] & FO). split.
   - apply (spf_of_sim es T0 Dr0 e x W0); auto.
-    intros e0 He0. apply (co_es _ _ _ _ _ _ _ HC). right. exact He0.
+    intros e0 He0. apply (co_es _ _ _ _ _ _ _ HC); [right; exact He0|].
+    destruct (event_node vals T0 Dr0 e0 W0 He0) as [m [Hm [Em _]]]. exists m. auto.
   - rewrite Hsp. unfold n. cbn [mk_node nd_spf]. destruct (self_parent (fe e)) as [sp|] eqn:SP; [|congruence]. intros _.
     assert (Hs : 1 < eseq (fe e)).
     { unfold self_parent in SP. destruct (eseq (fe e) <=? 1) eqn:L; [discriminate|]. lia. }
